@@ -123,7 +123,8 @@ def episode(sim, p, ep):
     for ph in range(nphases):
         sprog = []
         for _ in range(sim.choose(5)):
-            sprog.append((("out", "err")[sim.choose(2)], 1 + sim.choose(40)))
+            # n == 0: a data message without data (legal on the wire; the API never produces one, so it is sent raw)
+            sprog.append((("out", "err")[sim.choose(2)], (1 + sim.choose(40)) if sim.choose(8) else 0))
         rprogs = []
         for r in range(1 + sim.choose(2)):
             prog = []
@@ -143,6 +144,17 @@ def episode(sim, p, ep):
         def server_task(prog=sprog):
             for kind, n in prog:
                 data = bytes([65 + (n % 26)]) * n
+                if n == 0:
+                    from paramiko import Message
+                    m = Message()
+                    m.add_byte(bytes([94 if kind == "out" else 95]))
+                    m.add_int(sch.remote_chanid)
+                    if kind == "err":
+                        m.add_int(1)
+                    m.add_string(b"")
+                    sch.get_transport()._send_user_message(m)
+                    sim.fault("empty_data_message")
+                    continue
                 if kind == "out":
                     sch.sendall(data)
                 else:
